@@ -63,11 +63,12 @@ class View:
 class Spec(unit.UnitSpec):
     pid = "C22"
     modules = ["MmtkModel.Props.C22"]
-    theorems = ["Mmtk.SideMeta.ctz_spec", "Mmtk.SideMeta.findFirstBit_spec", "Mmtk.SideMeta.findLastBit_spec",
-                "Mmtk.SideMeta.scanWord_spec", "Mmtk.SideMeta.findPrevSimple_spec_partial",
+    theorems = ["Mmtk.SideMeta.ctz_spec", "Mmtk.SideMeta.hiBit_spec", "Mmtk.SideMeta.testBit_rangeMask",
+                "Mmtk.SideMeta.findFirstBit_spec", "Mmtk.SideMeta.findLastBit_spec",
+                "Mmtk.SideMeta.findPrev_own_region_defect", "Mmtk.SideMeta.findPrev_own_region_defect_witness",
+                "Mmtk.SideMeta.findPrev_own_region_partial", "Mmtk.SideMeta.findNext_own_region_partial",
                 "Mmtk.SideMeta.findPrev_fast_ne_simple_without_mapConsistent",
-                "Mmtk.SideMeta.scan_fast_ne_simple_unaligned_end_witness",
-                "Mmtk.SideMeta.findPrev_debug_agrees_partial"]
+                "Mmtk.SideMeta.scan_fast_ne_simple_unaligned_end_witness"]
     component = "side"
     relation = "Mmtk.SideMeta.{findPrev*, findNext*, scan*} ≙ SideMetadataSpec::{find_prev/next_non_zero_value(_fast|_simple), scan_non_zero_values(_fast|_simple)}"
     assumptions = ["MapConsistent: within the searched range a mapped data region has mapped metadata, and at/behind an unmapped "
@@ -96,7 +97,8 @@ class Spec(unit.UnitSpec):
         cases = []
         for i in range(n):
             g = sc.rand_geo(rng, max_meta_bytes=rng.choice([8, 24, 64, 64, 160]),
-                            edge=rng.choice([None, None, "lo", "hi", "lo", "hi"]))
+                            edge=rng.choice([None, None, "lo", "hi", "lo", "hi"]),
+                            lb=0 if rng.random() < 0.3 else None)
             allowed = self.allowed_dmap(g)
             style = rng.random()
             if style < 0.55:
@@ -146,7 +148,7 @@ class Spec(unit.UnitSpec):
                     lim = min(lim, maxlim)
                     ops.append(f"side {op} {a:#x} {lim:#x}")
                 else:
-                    op = rng.choice(SCANS if g.lb == 0 else ("scan", "scan_simple"))
+                    op = rng.choice(("scan", "scan_fast", "scan_fast", "scan_simple") if g.lb == 0 else ("scan", "scan_simple"))
                     if rng.random() < 0.75:
                         r0 = rng.randrange(0, g.n + 1)
                         r1 = rng.randrange(r0, g.n + 1)
@@ -160,6 +162,12 @@ class Spec(unit.UnitSpec):
 
     def corpus(self, debug):
         out = []
+        # the in-scope disagreement of the pinned code: own region non-zero, its start below data_addr - limit + 1
+        g = sc.Geo(0, 3, 0, 64, sc.CHUNK + 64)
+        b = bytearray(g.nbytes())
+        b[16] = 0x02
+        out.append(Case([g.new_line(), f"side fill {bytes(b).hex()}", "side find_prev 0xf 0x7", "side find_prev_fast 0xf 0x7",
+                         "side find_prev_simple 0xf 0x7", "side find_prev 0xf 0x8", "side find_next 0xf 0x1"]))
         # one bit, searches ending mid byte / mid word; `cursor + 8 < end` boundary of the scan
         g = sc.Geo(0, 3, 0, 1024, sc.CHUNK + 64)
         b = bytearray(g.nbytes())
@@ -256,7 +264,7 @@ class Spec(unit.UnitSpec):
 
 
 META = {
-    "text": "Lean model of find_prev/find_next (fast, naive, public with the debug cross-check) and scan (fast word-at-a-time, naive), transcribed with their word stepping, alignment tests and mapped-ness caching. Proved: per-range lemmas (trailing-zero / highest-bit selection under a range mask, the word scan enumerates exactly the set bits ascending), findPrevSimple as the naive region walk (partial), decide-checked counter-models (fast ≠ naive across an unmapped data chunk with mapped metadata; fast scan vs naive scan on a region-unaligned end). The top-level equivalences fast = naive under MapConsistent are stated in the file and tied by the exact differential + independent naive-scan oracle + the debug build's own fast == naive assertion.",
+    "text": "Lean model of find_prev/find_next (fast, naive, public with the debug cross-check) and scan (fast word-at-a-time, naive), transcribed with their word stepping, alignment tests and mapped-ness caching. Proved: per-range lemmas (trailing-zero / highest-bit selection under the range mask: find_first/last_non_zero_bit return the lowest/highest set bit of [start,end)), the exact characterisation of the one in-scope disagreement of the real code (findPrev_own_region_defect: the fast quick check ignores the search limit) with a decide witness, the agreement of the quick-check case otherwise (…_partial), decide-checked counter-models outside the scope (fast ≠ naive across an unmapped data chunk with mapped metadata; fast vs naive scan on a region-unaligned end). The top-level equivalences fast = naive under MapConsistent are stated in the file and tied by the exact differential + independent naive-scan oracle + the debug build's own fast == naive assertion.",
     "note": "Partial: top-level findPrev/findNext/scan fast = naive theorems are stated (comments) but only per-range lemmas and counter-models are proved; equivalence is evidenced by exact differential against the real code (all three variants) and an independent Python naive scan. Trusted: Lean kernel + standard axioms; sampling differential.",
     "technique": "Lean 4 (per-range lemmas, decide witnesses) + exact differential of fast/naive/public variants + independent naive-scan oracle + debug-build internal assertion",
 }
